@@ -16,7 +16,7 @@ FILES = ['duck_triangles.dae', 'duck_polylist.dae', 'trifans.dae', 'tristrips.da
          'empty_triangles_with_multiple_ns.dae']
 NS_FILE = 'wam.dae'          # non-default namespace: known finding
 LIBNAMES = ['geometries', 'lights', 'cameras', 'effects', 'materials', 'nodes', 'scenes', 'images']
-HOWS = ['add', 'remove', 'replace', 'permute', 'permute', 'reverse', 'move']
+HOWS = ['add', 'remove', 'replace', 'replace', 'permute', 'permute', 'reverse', 'move']
 
 
 def gen_op(rng, force_adjacent=False):
@@ -33,6 +33,8 @@ def gen_op(rng, force_adjacent=False):
     if level == 'save':
         return {'op': rng.choice(['save', 'write'])}
     if level == 'lib':
+        if how == 'replace' and rng.random() < 0.5:
+            how = 'replace_sameid'
         return dict(base, op='lib', lib=rng.choice(LIBNAMES), how='clear' if rng.random() < 0.06 and not force_adjacent else how)
     if level == 'rename':
         return dict(base, op='lib', lib=rng.choice(LIBNAMES), how='rename')
@@ -42,7 +44,7 @@ def gen_op(rng, force_adjacent=False):
             return dict(base, op='geom', gi=P(), how=rng.choice(['src_add', 'src_add', 'src_remove', 'src_remove_many', 'src_remove_many',
                                                                  'src_data', 'attr', 'revertex', 'revertex', 'src_inplace', 'src_inplace',
                                                                  'prim_convert', 'prim_convert']),
-                        mode=rng.choice(['elem', 'elem', 'slice', 'mul', 'add']),
+                        mode=rng.choice(['elem', 'elem', 'slice', 'mul', 'add', 'nudge', 'nudge']),
                         front=rng.random() < 0.5, some=rng.random() < 0.5, n=rng.choice([2, 2, 3, 5]))
         return dict(base, op='geom', gi=P(), how='prim_' + how, kind=rng.choice([None, 'triangles', 'polylist', 'polygons', 'lines']))
     if level == 'node_tr':
@@ -149,10 +151,15 @@ def gen_case(rng, maxlen, files_fraction=0.2):
         seq = [{'op': 'save'}]
         for _ in range(rng.choice([1, 1, 2])):
             seq.append(dict(b(), op='geom', how=rng.choice(['src_inplace', 'src_inplace', 'prim_convert']),
-                            mode=rng.choice(['elem', 'elem', 'slice', 'mul', 'add'])))
+                            mode=rng.choice(['elem', 'elem', 'slice', 'mul', 'add', 'nudge', 'nudge'])))
             seq.append({'op': rng.choice(['save', 'write'])})
         at = rng.randint(0, len(ops))
         ops[at:at] = seq
+    if rng.random() < 0.2:
+        # a save that fails validation (and is caught), the cause repaired, then the history goes on
+        fs = {'op': 'failsave', 'how': rng.choice(['camera', 'camera', 'scene']), 'write': rng.random() < 0.5,
+              'r': rng.randrange(1 << 30), 'pos': rng.randrange(64), 'pos2': 0, 'pos3': 0, 'n': 1}
+        ops.insert(rng.randint(0, len(ops)), fs)
     if base['kind'] in ('xmldoc', 'file') and rng.random() < 0.5:
         # loaded geometries lose several sources at once (incl. everything <vertices> names besides the
         # positions), in one geometry or in all of them
